@@ -81,6 +81,7 @@ func (fc *FuncContract) hasCallContract() bool {
 
 type TypeContract struct {
 	Key    string
+	GuardProps map[string][]string // mutex field -> property tags of the lock-discipline obligations
 	Guards map[string][]string // mutex field -> guarded fields
 	Invs   map[string][]*Clause // mutex field -> invariants
 	Ghost  []GhostDecl
@@ -228,7 +229,7 @@ func (cs *ContractSet) LoadContractFile(path string, pkgKey string) error {
 			}
 			curT = cs.types[key]
 			if curT == nil {
-				curT = &TypeContract{Key: key, Guards: map[string][]string{}, Invs: map[string][]*Clause{}, File: path}
+				curT = &TypeContract{Key: key, Guards: map[string][]string{}, GuardProps: map[string][]string{}, Invs: map[string][]*Clause{}, File: path}
 				cs.types[key] = curT
 			}
 			curF = nil
@@ -412,6 +413,7 @@ func (cs *ContractSet) LoadContractFile(path string, pkgKey string) error {
 			for _, f := range strings.Split(parts[1], ",") {
 				curT.Guards[mu] = append(curT.Guards[mu], strings.TrimSpace(f))
 			}
+			curT.GuardProps[mu] = append(curT.GuardProps[mu], props...)
 		case "invariant":
 			if curT == nil {
 				return fail("invariant outside type block")
